@@ -103,8 +103,17 @@ def make_case(rng, N, npart, nthread, coord, dtype, has_w, sort, style):
     if N >= 3 and style in ('dups', 'boundaries'):
         rows[N - 1] = list(rows[0])  # a fully identical row (stability is then visible only through the weights)
     w = [float(i + 1) for i in range(N)] if has_w else None
+    wdtype = dtype
+    if has_w and rng.random() < 0.35:
+        # weights of another dtype than the positions (wider float, or integer tags), with values the positions' dtype cannot
+        # hold: they must come back exactly and with their own dtype
+        wdtype = rng.choice(['float64', 'int64'] if dtype == 'float32' else ['int64', 'float32'])
+        if wdtype == 'float64':
+            w = [float(i + 1) + 2.0 ** -40 for i in range(N)]
+        elif wdtype == 'int64':
+            w = [float(2 ** 24 + 1 + 2 * i) for i in range(N)] if dtype == 'float32' else [float(i + 1) for i in range(N)]
     return {'N': N, 'np': npart, 'nthread': nthread, 'coord': coord, 'dtype': dtype, 'box': box, 'pos': rows,
-            'weights': w, 'sort': sort, 'style': style}
+            'weights': w, 'wdtype': wdtype, 'sort': sort, 'style': style}
 
 
 STYLES = ['lattice', 'boundaries', 'dups', 'onestripe', 'descending']
@@ -163,7 +172,7 @@ def impl_cases(payload):
         sys.stderr.write(f'@@CASE {ci}\n')
         sys.stderr.flush()
         pos = np.array(c['pos'], dtype=c['dtype']).reshape(c['N'], 3)
-        w = None if c['weights'] is None else np.array(c['weights'], dtype=c['dtype'])
+        w = None if c['weights'] is None else np.array(c['weights'], dtype=c.get('wdtype') or c['dtype'])
         pos0 = pos.copy()
         w0 = None if w is None else w.copy()
         if mode == 'py_func':
